@@ -36,6 +36,9 @@ def gen_cases(seed, tier, n):
         c["params"] = {"files": i % 3 == 0}
         if i % 3 == 1:
             tracegen.relabel_ranks(c)      # a subset of a job: rank ids are not 0..n-1, and not listed in order
+        if i % 10 == 7:
+            fw.set_quarter_us(c)           # quarter-microsecond resolution (framework.resolution); series only, no files
+            c["params"]["files"] = False
         out.append(c)
     return out
 
@@ -49,25 +52,31 @@ def _read_any(path):
 
 
 def run_impl(case, d):
-    ta, paths = fw.load_case(case, d)
+    with fw.resolution(case):
+        return _run_impl(case, d)
+
+
+def _run_impl(case, d):
+    k = fw.time_scale(case)
+    ta, paths = fw.load_case_res(case, d)
     sym = ta.t.symbol_table.get_sym_table()
     ranks = sorted(ta.t.get_ranks())
     frames = {}
     for r in ranks:
-        rows = fw.dump_frame(ta.t.get_trace(r), sym)
+        rows = fw.dump_frame_res(case, ta.t.get_trace(r), sym)
         frames[r] = rows
     out = {}
     try:
         q = ta.get_queue_length_time_series(ranks=ranks)
         out["queue"] = {}
         for r, df in q.items():
-            out["queue"][int(r)] = [[fw.as_int(i), fw.as_int(rec["ts"]), fw.as_int(rec["pid"]), fw.as_int(rec["tid"]), fw.as_int(rec["stream"]),
+            out["queue"][int(r)] = [[fw.as_int(i), fw.as_int(rec["ts"] * k), fw.as_int(rec["pid"]), fw.as_int(rec["tid"]), fw.as_int(rec["stream"]),
                                      fw.as_int(rec["queue_length"])] for i, rec in zip(df.index, df.to_dict("records"))]
     except Exception as e:
         out["queue_error"] = type(e).__name__ + ": " + str(e)[:200]
     try:
         b = ta.get_memory_bw_time_series(ranks=ranks)
-        out["bw"] = {int(r): [[fw.as_int(rec["ts"]), fw.as_int(rec["pid"]), str(rec["name"]), float(rec["memory_bw_gbps"])] for rec in df.to_dict("records")]
+        out["bw"] = {int(r): [[fw.as_int(rec["ts"] * k), fw.as_int(rec["pid"]), str(rec["name"]), float(rec["memory_bw_gbps"])] for rec in df.to_dict("records")]
                      for r, df in b.items()}
     except Exception as e:
         out["bw_error"] = type(e).__name__ + ": " + str(e)[:200]
@@ -116,7 +125,10 @@ def _types(rows):
 def coq_term(case, impl):
     parts = []
     for r, rows in sorted(impl["frames"].items()):
-        pairs = "[" + ";\n   ".join(f"({fw.ev_lit(x)}, {fw.z(_bw4(x) or 0)})" for x in rows) + "]"
+        # the 1 us floor given to zero-length copies is an absolute constant: k units in a quarter-microsecond case (the model's floor is 1 unit)
+        k = fw.time_scale(case)
+        brows = rows if k == 1 else [dict(x, dur=k) if (x["dur"] == 0 and x["stream"] != -1) else x for x in rows]
+        pairs = "[" + ";\n   ".join(f"({fw.ev_lit(x)}, {fw.z(_bw4(x) or 0)})" for x in brows) + "]"
         parts.append(f"(encode_queue {fw.evl(rows)}, encode_bw {fw.sl(_types(rows))} {pairs})")
     return "[" + ";\n ".join(parts) + "]"
 
